@@ -5,6 +5,7 @@ import (
 	"go/token"
 	"go/types"
 	"sort"
+	"strings"
 
 	"golang.org/x/tools/go/ssa"
 )
@@ -837,6 +838,28 @@ func c12Copy(p *Program, r *Report, m *envModel, fns []*ssa.Function) {
 			r.Check(bad == "", "C12.R5", funcName(fn)+"|child starts empty", p.Pos(c.Pos()), "a new child scope gets its parent link and nothing else",
 				bad+": the child starts with state taken from another scope (an inherited external lookup is asked before the parent's own table and stays after the parent's is replaced)")
 		}
+	}
+	// bindings are replaced, never written through: Copy and DeepCopy duplicate the reflect.Value handles, so a binding changed in
+	// place (Value.Set on what a table holds) changes the snapshot too
+	nThrough := 0
+	for _, fn := range fns {
+		for _, b := range fn.Blocks {
+			for _, in := range b.Instrs {
+				c, ok := in.(*ssa.Call)
+				if !ok {
+					continue
+				}
+				rm := reflectMethod(c)
+				if !strings.HasPrefix(rm, "Set") {
+					continue
+				}
+				nThrough++
+				r.Fail("C12.R5", fmt.Sprintf("%s|no write through a stored value #%d", funcName(fn), nThrough), p.Pos(c.Pos()), "package env calls reflect.Value."+rm+": a binding is changed in place instead of being replaced in its table; a copy of the scope holds the same reflect.Value handle, so the change is visible in the snapshot (and the other way round)")
+			}
+		}
+	}
+	if nThrough == 0 {
+		r.OK("C12.R5", "bindings|replaced, never written through", "env", "no reflect.Value.Set* call in package env")
 	}
 	// Copy: the maps of the result are filled by ranging over the receiver's maps with key/value copied unchanged
 	for _, fn := range fns {
